@@ -33,6 +33,9 @@ CONSTS = [
     lambda: const("1.5", "double"), lambda: const(".5", "double"), lambda: const("2.", "double"),
     lambda: const("1e3", "double"), lambda: const("1.5e-3f", "float"), lambda: const("2.0L", "long double"),
     lambda: const("0x1.8p3", "double"), lambda: const("0x1p-2f", "float"), lambda: const("1E+2l", "long double"),
+    lambda: const("09.5", "double"), lambda: const("08e1", "double"), lambda: const("019.", "double"), lambda: const("0078.25f", "float"),
+    lambda: const("00.5", "double"), lambda: const("1e5f", "float"), lambda: const("0e0", "double"), lambda: const("0x.8p1L", "long double"),
+    lambda: const("0xAp+3", "double"), lambda: const("1.e-2L", "long double"), lambda: int_const("00"), lambda: int_const("0", "ULL"),
     lambda: const("'a'", "char"), lambda: const("'\\n'", "char"), lambda: const("'\\''", "char"),
     lambda: const("'\\x41'", "char"), lambda: const("'\\101'", "char"), lambda: const("L'w'", "char"),
     lambda: const("u'x'", "char"), lambda: const("U'y'", "char"), lambda: const("u8'z'", "char"),
